@@ -268,9 +268,29 @@ def natural_dists(run_impl, items):
     return res
 
 
-def len_classes_nat(rng, nat):
-    """the requested-length classes of the C16 quantifier around the curve's natural length `nat`."""
-    out = [("none", None), ("tiny", 1e-3), ("zero", 0.0), ("neg", -rng.uniform(0.1, 50.0)), ("nan", float("nan")),
+def natural_lengths(run_impl, items):
+    """items: [(mode, points)] -> the natural curve's list of cumulative lengths per item ([] when unavailable)"""
+    lines = [curve_line("curve", m, None, pts) for m, pts in items]
+    res = []
+    for o in run_impl(lines):
+        obs = parse_curve_obs(o)
+        res.append(list(obs[1]) if obs and obs[1] else [])
+    return res
+
+
+def len_classes_nat(rng, nat, cums=()):
+    """the requested-length classes of the C16 quantifier around the curve's natural length `nat`; `cums` = the natural
+    curve's cumulative lengths: a requested length that is bit-for-bit the cumulative length at an inner vertex (in particular
+    one that occurs twice: a zero-length segment) is a class of its own."""
+    inner = [c for c in cums[1:-1] if c == c and 0 < c]
+    dups = [c for c, d in zip(inner, inner[1:]) if c == d]
+    extra = []
+    if dups:
+        extra.append(("cum-exact-duplicate", rng.choice(dups)))
+    if inner:
+        c = rng.choice(inner)
+        extra += [("cum-exact", c), ("cum-exact+ulp", next_up(c)), ("cum-exact-ulp", next_up(c, -1))]
+    out = extra + [("none", None), ("tiny", 1e-3), ("zero", 0.0), ("neg", -rng.uniform(0.1, 50.0)), ("nan", float("nan")),
            ("inf", float("inf")), ("huge", 1e6)]
     if nat is not None and nat == nat and 0 < nat < 1e30:
         out += [("inside", nat * rng.uniform(0.02, 0.98)), ("beyond", nat * rng.uniform(1.001, 3.0)),
